@@ -25,6 +25,7 @@ TRUSTED = [
     "FunctionalExtensionality.functional_extensionality_dep, Classical_Prop.classic, "
     "Description.constructive_definite_description (via Reals and excluded_middle_informative of core/Sem.v); "
     "the syntactic theorems (mgs_mss_sym_refuted, bound_untouched_*, the example) are closed under the global context",
+    "proofs/SimplifierSemBase_proofs.v / SimplifierSemArr_proofs.v (C01 development): okt, okt_sound, bv_width_ok, r_array_value_sound, used by proofs/SubstituterTyped_proofs.v",
     "hand models models/Substituter.v (substituter.py + identitydag.py), models/Ctors.v (FormulaManager constructors), "
     "models/TypeChecker.v (create_node's type check), models/Oracles.v fv (get_free_variables), tied to the implementation "
     "by this run's correspondence cases (exact structural equality, counts below)",
@@ -32,19 +33,23 @@ TRUSTED = [
     "harness/refeval.py, the independent evaluator used by the property-level search oracle",
 ]
 ASSUMPTIONS = [
-    "the substitution lemma is PROVED for the default strategy (MGS) on the fragment frag of the formula: every operator except "
-    "Pow, array values, ToReal, BV rotate / zero-extend / sign-extend; And/Or/Plus/Times with >= 2 arguments, applications with "
-    ">= 1 argument, non-empty quantifier prefixes, canonical Real constants, no negation directly under a negation or as a divisor "
-    "(all true of nodes of a FormulaManager except the excluded operators); replacement terms are arbitrary except that a "
-    "replacement of the form (not y) needs y Bool-valued by construction (anything but an array read at an ITE leaf) and a Real "
-    "constant replacement has a non-zero denominator; interpretations: Bool symbols / Bool functions denote Booleans. "
-    "Outside the fragment (Pow: core/Sem.v gives Pow on Int operands an Int value while the type checker and mgr.Pow make it "
-    "Real; ToReal and BV rotate/extend need the type-preservation theorem, which is not proved) the lemma is checked by the "
-    "refeval search oracle only",
-    "interp_lemma and subst_typed are not proved: exactness of interpretations and type preservation are covered by the "
-    "correspondence (create_node's type check is part of the model) and by the refeval search oracle",
+    "the substitution lemma is PROVED for the default strategy (MGS) for EVERY operator except Pow "
+    "(C05_subst_lemma_all_but_pow_partial: symbol keys, replacement terms = arbitrary well-formed terms of the symbol's sort, "
+    "the property's no-capture proviso, every well-formed interpretation); side conditions beyond the property: the formula and "
+    "the replacement terms are okt (built as the FormulaManager builds them: arities, constants in range, canonical array values, "
+    "inhabited sorts - proofs/SimplifierSemBase_proofs.v) and contain no Pow (core/Sem.v gives Pow on Int operands an Int value "
+    "while the type checker and mgr.Pow make it Real). The earlier untyped version (C05_subst_lemma_partial, fragment frag, "
+    "hypothesis bool_interp) is kept",
+    "subst_typed is PROVED for both strategies and arbitrary (symbol or compound) keys: C05_subst_typed_partial / _mss_partial "
+    "(no Pow, no array value), C05_subst_typed_arr_partial / _mss_arr_partial (array values too, when no key is an index constant)",
+    "compound keys: C05_subst_congruence_partial - replacing sub-terms by terms of equal value under I preserves the value, "
+    "quantifiers included (keys surviving the binder), every operator except Pow",
+    "interp_lemma is PROVED (C05_interp_lemma_partial) for interpretations as FunctionInterpretation documents them (formals of the "
+    "parameter sorts, body of the result sort closed except for the formals) with the side condition that bodies are quantifier-free "
+    "(an actual parameter can be captured by a binder of the body otherwise) and okt / Pow-free",
     "the substitution lemma for MSSubstituter and the coincidence of MGS and MSS on symbol keys are REFUTED "
-    "(C05_subst_lemma_mss_refuted, C05_mgs_mss_sym_refuted); the witness is replayed on the implementation on every run",
+    "(C05_subst_lemma_mss_refuted, C05_mgs_mss_sym_refuted); the witness is replayed on the implementation on every run; they hold "
+    "when no replacement term is a negation (C05_mgs_mss_sym_partial, C05_subst_lemma_mss_partial)",
     "array values are compared with their assignments in a canonical order (the code orders them by id(), i.e. memory addresses)",
     "substitution maps whose constant keys make two indexes of one array value collide are not generated (the surviving value depends on id() order)",
     "substitution maps that replace the constant exponent of a Pow by another constant are not generated (mgr.Pow then folds through "
